@@ -12,7 +12,7 @@ import numpy as np
 
 from .. import boson, circmon, emumon
 from ..emumon import insert_heralds
-from ..gen import Builder, equivalent_variant
+from ..gen import Builder, equivalent_variant, herald_in_place
 from .c03 import random_state
 from .common import drain_into, merge_stats, setup, too_big
 
@@ -23,7 +23,7 @@ RULE = ("seeded random configurations: circuit (0-3 heralds of 0-2 photons incl.
         "lossy, post-selection kind, #inputs, detector mode, photons, modes); non-trivial = heralds or loss or "
         "post-selection present")
 MANDATORY = ["herald_with_photon", "herald_in_ne_out", "post_selection_rejects", "threshold_bunched_candidate",
-             "lossy", "predicate_post_selection", "rule_post_selection", "error_rate_checked", "rule_added_in_place", "expected_in_other_order"]
+             "lossy", "predicate_post_selection", "rule_post_selection", "error_rate_checked", "rule_added_in_place", "expected_in_other_order", "herald_declared_in_place"]
 DECIDING = ["rel_analyzer_vs_sampler", "rel_quick_vs_sampler", "rel_simulator_vs_sampler", "rel_performance"]
 BUDGET = {"quick": 30, "thorough": 480}
 ASSUMPTIONS = ["relations are checked between the objects' own results: absolute tolerance 1e-10 plus the documented 1e-9 "
@@ -347,6 +347,36 @@ def run(ctx):
                         ctx.violation("quick sampler raised after a rule was added in place although the conditioned "
                                       f"sampler distribution has mass {tot2:.6f}", case=case,
                                       mechanism="quick_raises_after_in_place_rule", monitor="relation checker")
+            # (h) the same long-lived objects after a herald was declared in place on the circuit
+            if rng.random() < 0.3 and not lossy and sum(h["input"].values()) <= 2:
+                try:
+                    smp_long = emu.Sampler(c, inputs[0])
+                    _ = smp_long.probability_distribution
+                    smp_long.sample_N_outputs(20, seed=7)
+                    if herald_in_place(c, rng):
+                        ctx.bucket("herald_declared_in_place")
+                        new_in = State(random_state(rng, c.input_modes, min(nph, 2)))
+                        smp_long.input_state = new_in
+                        fresh = emu.Sampler(c, new_in)
+                        d_long = {tuple(st): p for st, p in smp_long.probability_distribution.items()}
+                        d_fresh = {tuple(st): p for st, p in fresh.probability_distribution.items()}
+                        ctx.count("rel_reused_after_in_place_herald")
+                        if d_long != d_fresh:
+                            ctx.violation("after a herald was declared in place, the reused sampler's distribution differs "
+                                          "from a fresh sampler's", case=case, mechanism="reused_after_in_place_herald",
+                                          monitor="relation checker")
+                        for meth in ("sample_N_outputs", "sample_N_inputs"):
+                            try:
+                                r_long = dict(getattr(smp_long, meth)(200, seed=11))
+                                r_fresh = dict(getattr(fresh, meth)(200, seed=11))
+                            except Exception:  # noqa: BLE001
+                                continue
+                            if r_long != r_fresh:
+                                ctx.violation(f"after a herald was declared in place, {meth} of the reused sampler differs "
+                                              f"from a fresh sampler's with the same seed", case=case,
+                                              mechanism="reused_after_in_place_herald:" + meth, monitor="relation checker")
+                except Exception as e:  # noqa: BLE001
+                    ctx.count("in_place_herald_phase_raised:" + type(e).__name__)
         elif "ok" in (outcome["simulator"], outcome["analyzer"], outcome["quick"]):
             ctx.violation(f"sampler raised {outcome['sampler']} on a configuration another object accepts",
                           case=case, mechanism="sampler_raises", monitor="relation checker")
